@@ -1,6 +1,6 @@
 (* C12 — deciding obligations. Statements only, closed by the lemmas proved in Circ/*Proofs.v. *)
 From Coq Require Import ZArith List Bool String.
-From VF Require Import Circ.Keys Circ.KeysProofs Circ.SubCircuit Circ.SubCircuitProofs Generated.CondTables.
+From VF Require Import Circ.Keys Circ.KeysProofs Circ.SubCircuit Circ.SubCircuitProofs Circ.CtlSub Circ.CtlSubProofs Generated.CondTables.
 Import ListNotations.
 Open Scope Z_scope.
 
@@ -241,3 +241,71 @@ Example C12_until_scoped_example :
   (exists s, single_loop true true (f20_body ++ [[probe_leaf u [4]]]) f None = Ok s) /\
   mapped_until true true f (op_mkeys (OSub f20_body f)) = Some (CSym 5 [MK ["p"]%string "a"; MK ["p"]%string "b"]).
 Proof. cbv zeta. repeat split; try reflexivity. eexists. reflexivity. Qed.
+
+(* ---- classically controlled sub-circuits (ClassicallyControlledOperation over a CircuitOperation), Circ/CtlSub.v ---- *)
+
+(* the flat form of a controlled sub-circuit (the unrolled sub-circuit, the conditions of the control on every operation)
+   under rescoping: every operation carries the rescoped conditions of the control and its own rescoped conditions *)
+Theorem C12_ctl_flat_rescope : forall kK kM path b cs ms, flat_nomeas ms = true ->
+  circ_rescope kK kM path b (circ_add_ctl cs ms)
+  = circ_add_ctl (map (cond_rescope kK kM path b) cs) (circ_rescope kK kM path b ms).
+Proof. exact ctl_flat_rescope. Qed.
+Print Assumptions C12_ctl_flat_rescope.
+
+Theorem C12_ctl_flat_key_map : forall kK kM m cs ms,
+  map (map (t_kmap kK kM m)) (circ_add_ctl cs ms)
+  = circ_add_ctl (map (cond_key_map kK kM m) cs) (map (map (t_kmap kK kM m)) ms).
+Proof. exact ctl_flat_kmap. Qed.
+Print Assumptions C12_ctl_flat_key_map.
+
+Theorem C12_ctl_flat_prefix : forall kK kM p cs ms,
+  map (map (t_prefix kK kM p)) (circ_add_ctl cs ms)
+  = circ_add_ctl (map (cond_prefix kK kM p) cs) (map (map (t_prefix kK kM p)) ms).
+Proof. exact ctl_flat_prefix. Qed.
+Print Assumptions C12_ctl_flat_prefix.
+
+Theorem C12_ctl_flat_control_keys : forall cs l,
+  conds_keys (lcs (leaf_add_ctl cs l)) = conds_keys cs ++ conds_keys (lcs l).
+Proof. exact ctl_leaf_ckeys. Qed.
+Print Assumptions C12_ctl_flat_control_keys.
+
+(* a user-level control key looked up from inside an operation rescoped by its enclosing scope (longer path, bindable keys
+   cut to the enclosing path length) finds exactly the binding the enclosing scope itself gives it *)
+Theorem C12_ctl_inner_key_binding : forall path pp b k, kpath k = [] ->
+  rescope_key (path ++ pp) (short_keys (List.length path) b) k = rescope_key path b k.
+Proof. exact rescope_key_sub. Qed.
+Print Assumptions C12_ctl_inner_key_binding.
+
+(* rescoping reaches the conditions INSIDE a controlled sub-circuit: transforming the control and the operation it
+   controls piecewise and then unrolling = unrolling and then rescoping the flat form *)
+Theorem C12_ctl_rescope_then_unroll : forall kK kM n path b cs c f r ms,
+  flat_nomeas c = true -> circ_user_level c = true -> ext f = [] -> until f = None -> reps f = RInt r -> 0 < r ->
+  ctl_flat kK kM (S n) (cs, OSub c f) = Ok ms ->
+  ctl_flat kK kM (S n) (ctl_rescope kK kM path b (cs, OSub c f)) = Ok (circ_rescope kK kM path b ms).
+Proof. exact ctl_rescope_then_unroll. Qed.
+Print Assumptions C12_ctl_rescope_then_unroll.
+
+(* ... and a rescoping that stops at the conditions of the control does not (the gate inside keeps the bare key m) *)
+Theorem C12_ctl_rescope_conds_only_refuted : forall kK kM,
+  ctl_flat kK kM 2 (ctl_rescope_conds_only kK kM ["0"%string] [MK ["0"%string] "m"; MK [] "c"] ctl_witness)
+  = Ok [[OLeaf (Leaf 5 false [1] [] [CKey (MK [] "c") (-1); CKey (MK [] "m") (-1)] [])]] /\
+  (do ms <- ctl_flat kK kM 2 ctl_witness; Ok (circ_rescope kK kM ["0"%string] [MK ["0"%string] "m"; MK [] "c"] ms))
+  <> ctl_flat kK kM 2 (ctl_rescope_conds_only kK kM ["0"%string] [MK ["0"%string] "m"; MK [] "c"] ctl_witness).
+Proof. exact ctl_rescope_conds_only_refuted. Qed.
+Print Assumptions C12_ctl_rescope_conds_only_refuted.
+
+(* non-vacuity of the implication theorems above *)
+Example C12_ctl_flat_rescope_example : flat_nomeas [[OLeaf (Leaf 5 false [1] [] [CKey (MK [] "m") (-1)] [])]] = true.
+Proof. reflexivity. Qed.
+Example C12_ctl_inner_key_binding_example :
+  kpath (MK [] "m") = [] /\
+  rescope_key (["0"%string] ++ ["s"%string]) (short_keys 1 [MK ["0"%string] "m"; MK [] "m"]) (MK [] "m") = Some (MK ["0"%string] "m").
+Proof. split; reflexivity. Qed.
+Example C12_ctl_rescope_then_unroll_example :
+  flat_nomeas ctl_witness_body = true /\ circ_user_level ctl_witness_body = true /\ ext ctl_witness_fields = [] /\
+  until ctl_witness_fields = None /\ reps ctl_witness_fields = RInt 1 /\
+  ctl_flat true true 2 ctl_witness
+  = Ok [[OLeaf (Leaf 5 false [1] [] [CKey (MK [] "c") (-1); CKey (MK [] "m") (-1)] [])]] /\
+  ctl_flat true true 2 (ctl_rescope true true ["0"%string] [MK ["0"%string] "m"; MK [] "c"] ctl_witness)
+  = Ok [[OLeaf (Leaf 5 false [1] [] [CKey (MK [] "c") (-1); CKey (MK ["0"%string] "m") (-1)] [])]].
+Proof. exact ctl_rescope_then_unroll_sat. Qed.
